@@ -9,7 +9,7 @@ HARNESSES = [
          cut_statics={"e2fsck/problem.c": ["find_problem"]},
          configs=[{"MODE": m} for m in (1, 2, 0, 3)],
          cbmc_flags=["--object-bits", "11"],
-         unwind=4, unwindset=["find_problem.0:9", "find_problem.1:9", "find_problem.2:426", "find_latch.0:16", "ask.0:5", "vf_run.0:16", "vf_run.1:16", "vf_check.0:16", "vf_check.1:16", "vf_check.2:16"]
+         unwind=2, unwindset=["find_problem.0:9", "find_problem.2:9", "find_problem.1:426", "vf_load_table.0:426", "find_latch.0:16", "ask.0:5", "vf_run.0:16", "vf_run.1:16", "vf_check.0:16", "vf_check.1:16", "vf_check.2:16"]
                  + ["main.%d:426" % i for i in range(4)],
          backends=["default", "kissat"],
          bound="every entry of the real problem_table (symbolic), every latch register state, all option/flag words, "
